@@ -247,32 +247,3 @@ Proof.
   destruct ex_aut_count_thm as (s & Hs & E). exists s. split; auto.
   apply is_aut_is_autA; auto. repeat constructor; discriminate.
 Qed.
-
-(** C18_max_depth_*: the example needs one individualisation: max_depth = 0 stops early before any leaf (the code raises), with
-    max_depth = 1 the answer is complete and the flag says so; 5 nodes: any bound >= 5 is enough by the theorem *)
-From SK Require Import model.C18_DepthModel proof.C18_Depth.
-Example ex_max_depth : canon_search_md g1 (Some 0) = ((None, []), true) /\
-  canon_search_md g1 (Some 1) = (canon_search g1, false) /\ length (vnodes g1) <= 5 /\ fst (canon_search g1) <> None.
-Proof. vm_compute. repeat split; auto; discriminate. Qed.
-
-(** C18_intids_*: the example network under integer_ids: species 1,2,3, reactions 4,5 -- a different view, same canonical graph *)
-From SK Require Import model.C18_IntIdsModel proof.C18_IntIds.
-Example ex_intids : net_ok true n1 /\ coeffs_ok n1 /\
-  intids_net n1 = Net [1;2;3]%N [Rxn 4%N [(1%N, 1%Z)] [(3%N, 1%Z)]; Rxn 5%N [(2%N, 1%Z)] [(3%N, 1%Z)]] /\
-  view true true (intids_net n1) <> view true true n1.
-Proof. split; [exact (proj1 ex_net_ok)|]. split; [exact (proj1 ex_view_wf)|]. vm_compute. split; [reflexivity|discriminate]. Qed.
-
-(** C18_vf2_uf_*: the structure-following union-find on the two self-maps of the example: parent links after the run, buckets in
-    node order {A,B}, {C}, {r_1,r_2}; the bookkeeping of summary(max_count=1) on 2 mappings: stopped early after one *)
-From SK Require Import model.C18_UFModel proof.C18_UF.
-Example ex_uf : orbits_from_mappings (node_ids g1) (auts g1) = [[0;1];[2];[3;4]]%N /\
-  orbits_from_mappings (node_ids g1) (rev (auts g1)) = [[0;1];[2];[3;4]]%N /\
-  vf2_bookkeeping 2 1 = (1, true, 1, 1) /\ vf2_bookkeeping 2 100 = (2, false, 2, 2) /\ vf2_bookkeeping 2 (-1) = (1, true, 0, 1).
-Proof. vm_compute. auto. Qed.
-
-(** C18_vf2_attr_*: under the selection (label) the two species A and B of the example are told apart: only the identity is left;
-    under the empty selection species and reactions are still separated by the arc attributes: 2 self-maps as with (kind) *)
-From SK Require Import model.C18_AutAttrModel proof.C18_AutAttr.
-Example ex_auts_attr : length (autsA g1 lt1 [NLabel]) = 1 /\ length (autsA g1 lt1 []) = 2 /\ length (autsA g1 lt1 [NKind; NBip]) = 2 /\
-  orbits_from_mappings (node_ids g1) (autsA g1 lt1 [NLabel]) = [[0];[1];[2];[3];[4]]%N.
-Proof. vm_compute. auto. Qed.
